@@ -13,6 +13,9 @@ META = {
             "attribute listings built from Go maps (collect, then sort), struct construction, the user-visible hash() (Java string hash / FNV-1a written out with int32/uint32 wrap), print and a step counter. "
             "Theorems, for all operation histories: exec_deterministic (any two environments give equal transcripts: outputs, iteration orders, listings, hash values, step counts), exec_equals_spec (the common value is that of a specification machine with no environment), "
             "order_independent_of_hash, listing_independent_of_map_order (Permutation l1 l2 -> sort l1 = sort l2 for the lexicographic order on byte strings, proved total/antisymmetric/transitive), user_hash_seedless, "
+            "real_table_order_independent_of_hash (+ _any_start, real_table_presized_independent_of_hash): the same hash-independence for the REAL table -- C12's pointer-level model of hashtable.go (8-entry buckets, overflow chains, grow, next/prevLink list) -- for any key type with decidable equality, any two hash functions and every history over C12's 15 operations: "
+            "both runs succeed with identical outputs for every operation, identical items / len / first / lookups at the end and identical observations after every operation, all equal to C12's hash-free association list (a proved corollary of C12's refinement_init / _step / _history / _observe, instantiated once per hash function); "
+            "exec_deterministic_real_table(_env): this machine with its dict operations run on C12's model never fails and has the same transcript under any two environments, namely the specification machine's and that of the machine over the simple table, "
             "every_map_range_sorted (the complete table of `for ... := range <map>` statements of the anchored files; re-derived from the Go source with go/ast on every run and compared, so a new unsorted exposure or a removed sort is flagged with file:line). "
             "Tie and search on the real implementation: (a) operation histories on the real starlark.Dict, struct / module listings and hash() are evaluated against the Coq machine under two different environments and against the specification machine; "
             "plus 400 (quick) / 4000 (thorough) big dict / set trials (20-400 long-string keys, several table doublings and overflow chains) against a naive oracle in Go; (b) generated dict/set/struct/json/dir()/load/time-heavy programs, including dicts and sets of hundreds of long-string keys (keys >= 12 bytes, one third ending in an error raised inside nested calls) are executed in k fresh processes (new hash seed each), three times in one process and on concurrent goroutines; "
@@ -20,9 +23,10 @@ META = {
             "every program is also run again after ALL other programs have run in the process (state left behind by another execution must not change it) and on a Thread that has already executed other programs, one of them failing (a reused thread must behave like a fresh one); "
             "(c) the SAME compiled Program is initialised on many goroutines at once (error programs, and a stress with a freshly reloaded 24 000-line chain program per trial so that lazily decoded tables are built under contention); in the thorough tier the concurrent runs are repeated under Go's race detector.",
     "note": "Trusted: Coq kernel + vm_compute; the harness (program generator, canonical serialiser, process/goroutine drivers), the Go AST walker and its syntactic recognition of map-typed expressions. "
-            "Depends on C12 for the refinement of the real hashtable.go (8-entry buckets, overflow chains) to an insertion-ordered map: the table proved here is a simple bucketed model. "
+            "The refinement of the real hashtable.go (8-entry buckets, overflow chains) to an insertion-ordered map is C12's theorem; it is no longer an assumed dependency: coq/C03/ProofsC12.v imports C12's theorems and proves hash independence and determinism over C12's model of the real table as corollaries (the simple bucketed table of Model.v is kept, and proved to give the same transcripts). "
+            "What C03 inherits from C12 is C12's own modelling abstraction of hashtable.go (store-indexed heap, no uint32 wrap, total Equal/Hash; tied to /repo by C12's correspondence check). "
             "UTF-8 decoding for hash(str) is Go's (the harness supplies the runes). Not reached by proof: goroutine scheduling, the Go runtime, lib/proto; scheduler effects are only exercised (goroutine runs) and otherwise rest on C05 (threads share no mutable state).",
-    "technique": "Coq proof (simulation of a bucketed table by an association list; uniqueness of sorted permutations) + go/ast re-derivation of the map-range table + differential execution across processes / repetitions / goroutines + model and spec correspondence (vm_compute)",
+    "technique": "Coq proof (simulation of a bucketed table by an association list; hash independence of the real table as a corollary of C12's refinement theorems; uniqueness of sorted permutations) + go/ast re-derivation of the map-range table + differential execution across processes / repetitions / goroutines + model and spec correspondence (vm_compute)",
 }
 
 HEADER = """From Coq Require Import ZArith NArith List Bool String.
@@ -224,7 +228,7 @@ Definition firsts := Eval vm_compute in map (fun c : list op * list event => fir
         "model_mismatches": len(bad_model), "spec_mismatches": len(bad_spec), "map_ranges": len(rows), "race_detector": race_note,
     }
     return ctx.finish(LEVEL, cov, assumptions=[
-        "the real hashtable.go refines an insertion-ordered map (C12); the Coq table is a simple bucketed model parametrised by the hash function",
+        "hash independence of the real hashtable.go is proved in Coq as a corollary of C12's refinement theorems (real_table_order_independent_of_hash, exec_deterministic_real_table); what remains trusted is C12's model of hashtable.go itself, tied to /repo by C12's correspondence check",
         "a fresh process draws a new maphash seed (hashtable.go var seed = maphash.MakeSeed())",
         "map-typed expressions are recognised syntactically by the AST walker (identifiers, fields, parameters, results, literals, make, named map types of the anchored packages)",
     ])
